@@ -8,7 +8,8 @@ Outcomes: pass fail error pending undefined skip kbd badarg
 import itertools
 import random
 
-OUTCOMES = ["pass", "fail", "error", "pending", "undefined", "skip", "kbd", "badarg"]
+NEST = ["nest_pass", "nest_fail", "nest_error", "nest_pending", "nest_undef"]      # the step calls context.execute_steps()
+OUTCOMES = ["pass", "fail", "error", "pending", "undefined", "skip", "kbd", "badarg"] + NEST
 NONPASS = OUTCOMES[1:]
 TAGPOOL = ["t1", "t2", "wip"]
 
@@ -181,7 +182,7 @@ def family_scen(max_steps=3, quick=False):
 def family_tree(rnd, n, quick=False):
     """<=2 features, <=1 rule each, <=4 scenarios/rows with <=2 own steps, tags at every level"""
     progs = []
-    outcomes = ["pass", "pass", "pass", "fail", "error", "undefined", "kbd", "skip", "pending"]
+    outcomes = ["pass", "pass", "pass", "fail", "error", "undefined", "kbd", "skip", "pending", "nest_pass", "nest_fail", "nest_undef"]
 
     def rtags(p=0.35):
         return [t for t in TAGPOOL if rnd.random() < p]
@@ -209,7 +210,7 @@ def family_tree(rnd, n, quick=False):
 
 def family_big(rnd, n):
     progs = []
-    outcomes = ["pass"] * 8 + ["fail", "error", "undefined", "kbd", "skip", "pending", "badarg"]
+    outcomes = ["pass"] * 8 + ["fail", "error", "undefined", "kbd", "skip", "pending", "badarg"] + NEST
 
     def rtags(p=0.3):
         return [t for t in TAGPOOL if rnd.random() < p]
